@@ -134,6 +134,8 @@ def stride_nway_specs(rnd):
 def shard(tier, seed, shard, nshards):
     st = common.Stats()
     n = N[tier] // nshards
+    if shard == 1:
+        common.repo_suite_workload(st, ID, ("tree-text-mismatch",))
     if shard == 0:
         for name, y, mode in corpus.repo_yaml_corpus(run.REPO):
             try:
@@ -148,7 +150,7 @@ def shard(tier, seed, shard, nshards):
                 cs = C.Case(s2, {}, {}, {}, m)
                 check_program(st, cs, run.compile_yaml(s2.yaml(), m), "repo")
     for i in range(n):
-        if i % 8 == 7:
+        if i % 9 == 8:
             rnd = random.Random("%s-nway-%d-%d-%d" % (ID, seed, shard, i))
             spec, ext = stride_nway_specs(rnd)
             cls, mode = "stride-nway", "plain"
